@@ -835,8 +835,13 @@ var c19OutTerms = []string{"foo", "'A b'", "f(a,b)", "[1,2,3]", "1+2*3", "- 1", 
 func c19GenOutput(g *kit.Lane, sc *c19Scenario) {
 	sc.Policy = g.Choose(kit.NumPolicies)
 	sc.Type = "text"
-	if g.Choose(4) == 0 {
+	switch g.Choose(6) {
+	case 0:
 		sc.Type = "binary" // second stream binary
+	case 1:
+		sc.Type = "file-write" // second stream: a file opened by open/4 in write mode (real temporary file)
+	case 2:
+		sc.Type = "file-append" // ... in append mode, on a file that already has content
 	}
 	sc.Faults = "none"
 	if g.Choose(3) == 0 {
@@ -923,11 +928,55 @@ func c19ExecOutput(r *kit.Run, sc *c19Scenario) {
 		return w
 	}
 	which := lane.Choose(2)
+	fileOut := strings.HasPrefix(sc.Type, "file-")
+	if fileOut {
+		which = 0 // a real file cannot be made to fail: faults go to the first stream
+	}
 	w1, w2 := mk("w1", sc.Faults != "none" && which == 0), mk("w2", sc.Faults != "none" && which == 1)
+	var tmpDir string
+	if fileOut {
+		d, err := os.MkdirTemp("", "verif-c19-out-")
+		if err != nil {
+			kit.Bug("c19 tempdir: %v", err)
+		}
+		tmpDir = d
+		defer os.RemoveAll(d)
+	}
+	const c19Pre = "earlier content\n"
+	fileSink := func(name string) []byte {
+		b, err := os.ReadFile(filepath.Join(tmpDir, name))
+		if err != nil {
+			kit.Bug("c19 read back: %v", err)
+		}
+		if sc.Type == "file-append" {
+			if !strings.HasPrefix(string(b), c19Pre) {
+				return []byte("<the file's earlier content was damaged: " + string(b) + ">")
+			}
+			b = b[len(c19Pre):]
+		}
+		return b
+	}
 	// fault-free twin for renderings
 	t1, t2 := &kit.SimWriter{Run: r}, &kit.SimWriter{Run: r}
-	build := func(a, b io.Writer) *prolog.Interpreter {
+	build := func(a, b io.Writer, file string) *prolog.Interpreter {
 		interp := prolog.New(strings.NewReader(""), a)
+		if fileOut {
+			path := filepath.Join(tmpDir, file)
+			mode := "write"
+			if sc.Type == "file-append" {
+				mode = "append"
+				if err := os.WriteFile(path, []byte(c19Pre), 0o644); err != nil {
+					kit.Bug("c19 temp file: %v", err)
+				}
+			}
+			if err := interp.QuerySolution(fmt.Sprintf("open('%s', %s, _, [alias(fo)]).", path, mode)).Err(); err != nil {
+				kit.Bug("c19 open/4 for output: %v", err)
+			}
+			if err := interp.Exec("sim_out(S) :- stream_property(S, alias(fo))."); err != nil {
+				kit.Bug("c19: %v", err)
+			}
+			return interp
+		}
 		var s2 *engine.Stream
 		if sc.Type == "binary" {
 			s2 = engine.NewOutputBinaryStream(b)
@@ -939,28 +988,34 @@ func c19ExecOutput(r *kit.Run, sc *c19Scenario) {
 		})
 		return interp
 	}
+	sink2 := func(w *kit.SimWriter, file string) []byte {
+		if fileOut {
+			return fileSink(file)
+		}
+		return w.Sink
+	}
 	render := make([][2]string, len(sc.Out))
 	sched := kit.NewSched(r, sc.Policy)
 	var status string
 	leftover, other := kit.Bubble(r.T, func() {
 		// fault-free twin: renderings of each op, one query per op, before the scheduler is installed
-		twin := build(t1, t2)
+		twin := build(t1, t2, "twin.txt")
 		for i, op := range sc.Out {
-			a, b := len(t1.Sink), len(t2.Sink)
+			a, b := len(t1.Sink), len(sink2(t2, "twin.txt"))
 			if err := twin.QuerySolution("current_output(S1), sim_out(S2), " + op + ".").Err(); err != nil {
 				kit.Bug("c19 output twin: %s: %v", op, err)
 			}
-			render[i] = [2]string{string(t1.Sink[a:]), string(t2.Sink[b:])}
+			render[i] = [2]string{string(t1.Sink[a:]), string(sink2(t2, "twin.txt")[b:])}
 		}
 		kit.Settle()
-		interp := build(w1, w2)
+		interp := build(w1, w2, "out.txt")
 		type snap struct{ a, b, f int }
 		var obs []snap
 		faults := func() int {
 			return r.Out.Faults["write-dead"] + r.Out.Faults["write-fail-before"] + r.Out.Faults["write-short"]
 		}
 		interp.Register1(engine.NewAtom("obs"), func(_ *engine.VM, _ engine.Term, k engine.Cont, env *engine.Env) *engine.Promise {
-			obs = append(obs, snap{len(w1.Sink), len(w2.Sink), faults()})
+			obs = append(obs, snap{len(w1.Sink), len(sink2(w2, "out.txt")), faults()})
 			return k(env)
 		})
 		prolog.SimYield = sched.Yield
@@ -979,7 +1034,7 @@ func c19ExecOutput(r *kit.Run, sc *c19Scenario) {
 				}
 				q := strings.Join(goals, ", ") + "."
 				obs = obs[:0]
-				prev := snap{len(w1.Sink), len(w2.Sink), faults()}
+				prev := snap{len(w1.Sink), len(sink2(w2, "out.txt")), faults()}
 				sched.UserYield("U:seg")
 				err := interp.QuerySolution(q).Err()
 				r.Logf("seg %d: %s -> completed %d of %d, err=%s", seg, q, len(obs), j-i, kit.CanonErr(err))
@@ -988,7 +1043,7 @@ func c19ExecOutput(r *kit.Run, sc *c19Scenario) {
 					want := render[n]
 					if k < len(obs) {
 						cur := obs[k]
-						da, db := string(w1.Sink[prev.a:cur.a]), string(w2.Sink[prev.b:cur.b])
+						da, db := string(w1.Sink[prev.a:cur.a]), string(sink2(w2, "out.txt")[prev.b:cur.b])
 						if cur.f > prev.f {
 							r.Fail("write-error-swallowed", "write-error-swallowed:"+c19OutName(sc.Out[n]), "%s succeeded although the sink refused (part of) its output: sink got %q, complete rendering %q", sc.Out[n], da+db, want[0]+want[1])
 							return
@@ -1004,8 +1059,8 @@ func c19ExecOutput(r *kit.Run, sc *c19Scenario) {
 						break
 					}
 					// the op that ended the query
-					cur := snap{len(w1.Sink), len(w2.Sink), faults()}
-					da, db := string(w1.Sink[prev.a:cur.a]), string(w2.Sink[prev.b:cur.b])
+					cur := snap{len(w1.Sink), len(sink2(w2, "out.txt")), faults()}
+					da, db := string(w1.Sink[prev.a:cur.a]), string(sink2(w2, "out.txt")[prev.b:cur.b])
 					if cur.f == prev.f {
 						r.Fail("op-failed", "output-op-failed:"+c19OutName(sc.Out[n]), "%s ended with %s although no write fault was injected", sc.Out[n], kit.CanonErr(err))
 						return
@@ -1016,6 +1071,23 @@ func c19ExecOutput(r *kit.Run, sc *c19Scenario) {
 					}
 				}
 				i = j
+			}
+			if fileOut && !r.Failed() {
+				// closing must lose nothing: the whole file equals the concatenation of what was written to it
+				want := ""
+				done := 0
+				for n := range sc.Out {
+					want += render[n][1]
+					done++
+				}
+				before := string(sink2(w2, "out.txt"))
+				if err := interp.QuerySolution("close(fo).").Err(); err != nil {
+					r.Fail("op-failed", "close-failed", "close(fo) raised %s", kit.CanonErr(err))
+					return
+				}
+				if got := string(sink2(w2, "out.txt")); got != before || (sc.Faults == "none" && got != want) {
+					r.Fail("output-mismatch", "file-content-after-close", "after close/1 the file holds %q; before it held %q; everything written to it: %q", got, before, want)
+				}
 			}
 		})
 		status = sched.Drive()
@@ -1036,6 +1108,10 @@ func c19ExecOutput(r *kit.Run, sc *c19Scenario) {
 		r.Fail("leak", "search-goroutine-alive", "search goroutines %v still alive after all queries were closed", sched.Alive())
 	}
 	r.Out.NonTrivial = w1.Writes+w2.Writes >= 3 && w1.Writes > 0 && w2.Writes > 0
+	if fileOut {
+		r.Out.NonTrivial = w1.Writes > 0 && len(render) >= 3
+		r.Probe("output-to-file-opened-by-open/4")
+	}
 	b, _ := json.Marshal(sc)
 	r.Out.ScenarioKey = string(b) + fmt.Sprintf("|%x", sched.Hash())
 }
